@@ -420,3 +420,111 @@ def gen_triples(r, n, repo, minors_mix=0.15):
             b, l, rm = vary_minors(r, b, l, rm); name += '+minors%d%d%d' % (b['nbformat_minor'], l['nbformat_minor'], rm['nbformat_minor'])
         out.append((name, b, l, rm))
     return out
+
+
+# ---------------------------------------------------------------- one side REMOVES a dict key, the other side changes only transients below it
+REMOVALS = ('to_markdown', 'to_raw', 'to_markdown_edited', 'drop_flags', 'to_markdown_drop_flags')
+RERUNS = ('count', 'count_result', 'count_flags', 'count_noout', 'count_from_null')
+_FLAG_TOGGLE = {'collapsed': {False: True, True: False}, 'scrolled': {False: 'auto', True: False, 'auto': True}}
+
+
+def _retype_to_text(cell, to):
+    """code cell -> markdown / raw in place, as the notebook front ends do it: cell_type replaced, execution_count and
+    outputs removed, id / source / metadata kept"""
+    cell['cell_type'] = to
+    cell.pop('outputs', None); cell.pop('execution_count', None)
+    return cell
+
+
+def _rerun_counts_only(cell, n, flags=()):
+    """re-execution that changes transient fields only: the cell's execution_count, the execution_count of its
+    execute_result outputs, and (flags) the display flags collapsed / scrolled of its metadata"""
+    cell['execution_count'] = n
+    for o in cell.get('outputs', []):
+        if o.get('output_type') == 'execute_result': o['execution_count'] = n
+    for f in flags:
+        if f in cell['metadata'] and cell['metadata'][f] in _FLAG_TOGGLE[f]:
+            cell['metadata'][f] = _FLAG_TOGGLE[f][cell['metadata'][f]]
+    return cell
+
+
+def _apply_removal(cell, removal):
+    if removal.startswith('to_'):
+        _retype_to_text(cell, 'raw' if removal == 'to_raw' else 'markdown')
+        if removal == 'to_markdown_edited': cell['source'] = '# now a text cell\n' + cell['source']
+    if removal.endswith('drop_flags'):
+        for f in ('collapsed', 'scrolled'): cell['metadata'].pop(f, None)
+    return cell
+
+
+def removed_vs_transient_handmade(minor, removals=REMOVALS, reruns=RERUNS):
+    """[(name, base, local, remote)]: base [code, executed code cell X, markdown].  One side REMOVES keys of X -- converts it
+    to a markdown / raw cell (cell_type replaced, execution_count and outputs removed; optionally the source edited too)
+    and / or drops the display flags metadata.collapsed / scrolled -- while the other side only re-executes X: a new
+    execution_count (from a number or from null), the same outputs (none / a stream / a stream and an execute_result whose
+    own execution_count follows), optionally the display flags toggled.  Everything the re-executing side changes is
+    transient, so with transients ignored the removal simply wins.  Both orientations."""
+    out = []
+    stream = {'output_type': 'stream', 'name': 'stdout', 'text': 'out\n'}
+    for removal in removals:
+        for rerun in reruns:
+            ec = None if rerun == 'count_from_null' else 2
+            outs = [] if rerun in ('count_noout', 'count_from_null') else [copy.deepcopy(stream)]
+            if rerun == 'count_result': outs.append({'output_type': 'execute_result', 'data': {'text/plain': '2'}, 'metadata': {}, 'execution_count': ec})
+            md = {'collapsed': False, 'scrolled': False, 'name': 'x'} if (rerun == 'count_flags' or removal.endswith('drop_flags')) else {}
+            base = _nb(minor, [_code(minor, 'a = 1\n', 0, ec=1),
+                               _code(minor, 'first line of the text\nsecond line of the text\nthird line\n', 1, outputs=outs, ec=ec, metadata=md),
+                               _md(minor, 'closing remarks\n', 2)])
+            removed = copy.deepcopy(base); _apply_removal(removed['cells'][1], removal)
+            reran = copy.deepcopy(base)
+            _rerun_counts_only(reran['cells'][1], 7, ('collapsed', 'scrolled') if (rerun == 'count_flags' or removal == 'drop_flags') else ())
+            out.append(('rm_vs_transient:%s:%s:local_removes' % (removal, rerun), base, removed, reran))
+            out.append(('rm_vs_transient:%s:%s:remote_removes' % (removal, rerun), base, copy.deepcopy(reran), copy.deepcopy(removed)))
+    return out
+
+
+def removed_vs_transient_triple(r):
+    """generated version: a random notebook (any minor, mostly 4.5) with an executed code cell X (random outputs, random
+    metadata incl. display flags); one side removes keys of X (retypes it to markdown / raw, maybe edits its source, maybe
+    drops display flags), the other side changes only transient fields of X (execution counts, display flags); either side
+    may also edit another cell.  Either orientation."""
+    minor = r.choice([0, 2, 3, 4, 4, 5, 5, 5, 5, 5]); used = set()
+    cells = [gennb.gen_cell(r, minor, used, rich=False) for _ in range(r.choice([1, 1, 2, 3, 4]))]
+    i = r.randrange(len(cells))
+    x = gennb.gen_cell(r, minor, used, rich=r.random() < 0.5, kind='code')
+    ec = None if r.random() < 0.15 else r.randint(1, 40)
+    x['execution_count'] = ec
+    x['outputs'] = [] if ec is None else [gennb.gen_output(r, ec, rich=False, kind=r.choice(['stream', 'stream', 'execute_result', 'display_data', 'error']))
+                                          for _ in range(r.choice([0, 1, 1, 2, 3]))]
+    for o in x['outputs']:
+        if o['output_type'] == 'execute_result': o['execution_count'] = ec
+    flags = r.sample(['collapsed', 'scrolled'], r.choice([0, 0, 1, 2]))
+    for f in ('collapsed', 'scrolled'): x['metadata'].pop(f, None)
+    for f in flags: x['metadata'][f] = r.choice([True, False])
+    cells[i] = x
+    b = {'cells': cells, 'metadata': {}, 'nbformat': 4, 'nbformat_minor': minor}
+    removal = r.choice(REMOVALS if flags else REMOVALS[:3])
+    removed = copy.deepcopy(b); _apply_removal(removed['cells'][i], removal)
+    reran = copy.deepcopy(b)
+    tog = [f for f in flags if r.random() < (0.9 if removal == 'drop_flags' else 0.4)]
+    if removal == 'drop_flags' and not tog: tog = flags[:1]
+    _rerun_counts_only(reran['cells'][i], (ec or 0) + r.randint(1, 30), tog)
+    rest = [j for j in range(len(cells)) if j != i]
+    for side in (removed, reran):
+        if rest and r.random() < 0.3:
+            j = r.choice(rest)
+            side['cells'][j]['source'] = gennb.edit_source_text(r, side['cells'][j]['source'], side['cells'][j]['cell_type'], 'line')
+            rest = [k for k in rest if k != j]
+    if r.random() < 0.5: return ('rm_vs_transient:%s:gen:local_removes@4.%d' % (removal, minor), b, removed, reran)
+    return ('rm_vs_transient:%s:gen:remote_removes@4.%d' % (removal, minor), b, reran, removed)
+
+
+def removed_vs_transient_triples(r, n):
+    """hand-made product at 4.5 (cells matched by id: the removal meets the transient change inside ONE cell), a rotating
+    part of it at each older minor (there a retyped cell is a delete + insert), then n generated triples"""
+    out = [('hand:%s@4.5' % nm, b, l, rm) for nm, b, l, rm in removed_vs_transient_handmade(5)]
+    for k in range(5):
+        hm = removed_vs_transient_handmade(k)
+        out += [('hand:%s@4.%d' % (nm, k), b, l, rm) for j, (nm, b, l, rm) in enumerate(hm) if j % 5 == k]
+    for _ in range(n): out.append(removed_vs_transient_triple(r))
+    return out
